@@ -65,6 +65,13 @@ fn store_fn_info_in_state(
     Ok(())
 }
 
+fn remove_fn_info_from_state(state: &mut HashMap<String, StateValue>, name: &str) {
+    let fn_state = get_core_sub_state_for_command(state, FUNCTION_STATE_KEY.to_string());
+    let meta_info_state = get_sub_state(META_INFO_STATE_KEY.to_string(), fn_state);
+
+    meta_info_state.remove(name);
+}
+
 fn get_fn_info_from_state(
     state: &mut HashMap<String, StateValue>,
     name: &str,
@@ -310,7 +317,21 @@ impl Command for FunctionCommand {
                 }
             };
 
-            match get_fn_info_from_state(context.state, &function_name) {
+            // the definition data follows the commands registry: data of a function that was removed meanwhile
+            // does not block the name
+            let existing_fn_info = match get_fn_info_from_state(context.state, &function_name) {
+                Some(fn_info) => {
+                    if context.commands.exists(&function_name) {
+                        Some(fn_info)
+                    } else {
+                        remove_fn_info_from_state(context.state, &function_name);
+                        None
+                    }
+                }
+                None => None,
+            };
+
+            match existing_fn_info {
                 Some(fn_info) => {
                     if fn_info.start != context.line {
                         CommandResult::Error(
@@ -422,7 +443,15 @@ impl Command for FunctionCommand {
                                                 None,
                                                 GoToValue::Line(fn_end_line + 1),
                                             ),
-                                            Err(error) => CommandResult::Error(error.to_string()),
+                                            Err(error) => {
+                                                // the registry refused the name: nothing of this definition stays
+                                                remove_fn_info_from_state(
+                                                    context.state,
+                                                    &function_name,
+                                                );
+
+                                                CommandResult::Error(error.to_string())
+                                            }
                                         }
                                     }
                                     Err(error) => CommandResult::Error(error),
